@@ -497,6 +497,8 @@ impl Vm {
     ///
     /// 3. A sweep, freeing any vcells not marked as used in step #1.
     pub fn run_gc(&mut self) {
+        #[cfg(marwood_verif)]
+        let verif_before = (self.heap.used_size(), self.heap.capacity());
         #[cfg(not(marwood_verif))]
         if (self.heap.used_size() as f64 / self.heap.capacity() as f64) < 0.75_f64 {
             return;
@@ -505,6 +507,7 @@ impl Vm {
         if !self.verif.force_gc
             && (self.heap.used_size() as f64 / self.heap.capacity() as f64) < 0.75_f64
         {
+            self.verif_log_gc(verif_before, false, verif_before.0);
             return;
         }
         #[cfg(marwood_verif)]
@@ -528,11 +531,15 @@ impl Vm {
         self.heap.mark(self.ip.0);
         self.heap.mark(self.ep);
         self.heap.sweep();
+        #[cfg(marwood_verif)]
+        let verif_swept = self.heap.used_size();
 
         // If after GC the heap utilization is still high, grow the heap.
         if (self.heap.used_size() as f64 / self.heap.capacity() as f64) > 0.75_f64 {
             self.heap.grow();
         }
+        #[cfg(marwood_verif)]
+        self.verif_log_gc(verif_before, true, verif_swept);
     }
 
     /// Build Closure Environment
